@@ -58,6 +58,33 @@ def mutex_into_inner(ex, m): return OK(m.cell.v)
 def mutex_is_poisoned(ex, r): return False
 
 
+# ====================================================================== panic::catch_unwind
+@nat('panic::catch_unwind', 'catch_unwind')
+def catch_unwind(ex, f):
+    """runs the closure; a panic inside comes back as Err(payload).  Unwinding drops the guards of the frames it leaves, which
+    would poison their mutexes: poisoning is not modelled, so a panic that unwinds through a lock taken inside the closure is
+    outside the encoding (Unsupported), never silently accepted."""
+    held_before = list(ex.held)
+    nerr = len(ex.errstack)
+    while isinstance(f, Ref):
+        f = ex.read(f)
+    if isinstance(f, Adt) and f.name == 'AssertUnwindSafe':
+        f = f.fields[0]
+    try:
+        return OK(ex.call_value(f, []))
+    except Panic as e:
+        inside = [m for m in ex.held if m not in held_before]
+        if inside:
+            raise Unsupported('panic unwinds through held mutex guard(s) %s inside catch_unwind (poisoning is not modelled)' % ', '.join(str(m.label or m.uid) for m in inside))
+        del ex.errstack[nerr:]
+        ex.env.setdefault('caught_panics', []).append(str(e)[:200])
+        return ERR(Opaque('panic payload'))
+
+
+@nat('AssertUnwindSafe')
+def assert_unwind_safe(ex, v): return Adt('AssertUnwindSafe', 0, [v])
+
+
 # ====================================================================== atomics (sequential)
 @nat('Atomic::new', 'AtomicU32::new', 'AtomicUsize::new', 'AtomicBool::new', 'AtomicU64::new')
 def atomic_new(ex, v): return Adt('Atomic', 0, [v])
